@@ -106,6 +106,9 @@ func (w *World) pkgByShort(s string) *packages.Package {
 
 func fieldKey(v *types.Var, owner string) string { return owner + "." + v.Name() }
 
+// ownerOfField names the struct declaring v.
+func ownerOfField(w *World, v *types.Var) string { return ownerOfFieldRaw(w, v) }
+
 // heldLockFields returns "Struct.field" identities of the locks in a fact set.
 func heldLockFields(la *LockAnalysis, f Facts) map[string]string {
 	out := map[string]string{}
@@ -114,7 +117,7 @@ func heldLockFields(la *LockAnalysis, f Facts) map[string]string {
 		i := strings.LastIndexByte(rest, ':')
 		path, mode := rest[:i], rest[i+1:]
 		if v := la.lockVar[path]; v != nil {
-			id := ownerOfField(la.W, v) + "." + v.Name()
+			id := la.W.canonField(v)
 			if old, ok := out[id]; !ok || (old == "R" && mode == "W") {
 				out[id] = mode
 			}
@@ -124,7 +127,7 @@ func heldLockFields(la *LockAnalysis, f Facts) map[string]string {
 }
 
 // ownerOfField finds the struct (by name) that declares field v.
-func ownerOfField(w *World, v *types.Var) string {
+func ownerOfFieldRaw(w *World, v *types.Var) string {
 	for _, p := range w.Pkgs {
 		sc := p.Types.Scope()
 		for _, n := range sc.Names() {
@@ -363,7 +366,7 @@ func checkDiscipline(w *World, r *Report, la *LockAnalysis, filter func(sharedSt
 		if a.Unit != nil {
 			uname = a.Unit.name
 		}
-		base := fmt.Sprintf("%s#%s.%s:%s", uname, ss.name, a.Field.Name(), a.Kind)
+		base := fmt.Sprintf("%s#%s.%s:%s", uname, ss.name, w.canonName(a.Field), a.Kind)
 		seq[base]++
 		construct := fmt.Sprintf("%s/%d", base, seq[base])
 		row, tabled := table[a.Field]
@@ -423,7 +426,7 @@ func checkDiscipline(w *World, r *Report, la *LockAnalysis, filter func(sharedSt
 			if a.IsWrite() {
 				need = "W"
 			}
-			path := exprStr(a.Base) + "." + row.mu
+			path := exprStr(a.Base) + "." + w.Field(w.pkgByShort(row.pkg), row.strct, row.mu).Name()
 			if holds(held, path, need) {
 				r.OK("R09.1", construct, a.Pos(), true, "%s held (%s)", path, need)
 			} else if isFreshAccess(a) {
